@@ -16,6 +16,10 @@ A text is a list of statements, each abstracted to
   r   SQLite reports it read-only and it changes nothing (SELECT, EXPLAIN, PRAGMA table_info, …)
   w n a write to the database, effect token n
   t   not read-only for SQLite but without effect on the database file (CREATE TEMP TABLE …)
+  qoff  a PRAGMA that switches query_only off (SQLite applies it when the statement is PREPARED, and
+        the setting stays on the pooled connection)
+  wa n  `ATTACH DATABASE '<the node's own file>' AS x; INSERT INTO x.t …`: a write that mode=ro does
+        not stop
 go-sqlite3's `ExecContext` steps EVERY statement of a text, `QueryContext` only the last.
 
 SQLite is a parameter with assumed laws (`structure SqliteConn`): a connection opened with
@@ -31,6 +35,9 @@ inductive Stmt where
   | r
   | w (n : Nat)
   | t
+  | qoff        -- switches PRAGMA query_only OFF on the connection it is prepared on (any spelling)
+  | wa (n : Nat) -- a write through an ATTACHed alias of the node's own database file: mode=ro does
+                 -- not cover attached databases, only query_only stands in its way
 deriving Repr, DecidableEq
 
 abbrev Text := List Stmt
@@ -39,6 +46,7 @@ abbrev Db := List Nat     -- the effect tokens applied, in order
 /-- `sqlite3_stmt_readonly` -/
 def stmtReadOnly : Stmt → Bool
   | .r => true
+  | .qoff => true
   | _ => false
 
 /-- `DB.StmtReadOnly(text)`: only the first statement is compiled. `none` = empty text (skipped) -/
@@ -88,7 +96,9 @@ def listConn : SqliteConn Db where
   step q db s :=
     match s with
     | .r => (db, false)
+    | .qoff => (db, false)
     | .w n => if q then (db, true) else (db ++ [n], false)
+    | .wa n => if q then (db, true) else (db ++ [n], false)
     | .t => if q then (db, true) else (db, false)
   queryOnly_refuses := by intro db s h; cases s <;> simp_all [stmtReadOnly]
   readOnly_keeps := by intro q db s h; cases s <;> simp_all [stmtReadOnly]
@@ -127,6 +137,41 @@ def dbRequest (db : Db) (texts : List Text) : Out :=
 def dbExecute (db : Db) (texts : List Text) : Out :=
   ⟨texts.foldl runRWexec db, (texts.filter (· ≠ [])).map fun _ => false⟩
 
+/-! ### the read-only pool's connection keeps its settings between requests -/
+
+/-- a node as the query path sees it: the database and whether the pooled read-only connection still
+has query_only switched on -/
+structure NodeSt where
+  db : Db := []
+  roQO : Bool := true
+deriving Repr, DecidableEq
+
+/-- one text through `QueryContext` on the pooled read-only connection. Every statement of the text is
+PREPARED (a `qoff` among them switches query_only off, for good); the last one is stepped: with
+query_only off, mode=ro still protects the main database (`w`) but not an attached one (`wa`). -/
+def queryTextRO (st : NodeSt) (t : Text) : NodeSt × Bool :=
+  let qo := if t.contains .qoff then false else st.roQO
+  match lastStmt t with
+  | some (.wa n) => if qo then ({ st with roQO := qo }, true) else ({ db := st.db ++ [n], roQO := qo }, false)
+  | some s => let r := listConn.step true st.db s; ({ db := r.1, roQO := qo }, r.2)
+  | none => ({ st with roQO := qo }, false)
+
+def queryTextsRO : NodeSt → List Text → NodeSt × List Bool
+  | st, [] => (st, [])
+  | st, t :: rest =>
+    if t = [] then queryTextsRO st rest
+    else
+      let r := queryTextRO st t
+      let rs := queryTextsRO r.1 rest
+      (rs.1, r.2 :: rs.2)
+
+/-- `Store.Query` / the local path of `Store.Request` with the pragma guard in front
+(`PragmaCheckRequest.Check` → `db.IsBreakingPragma` per statement text): a request with a guarded
+text is rejected as a whole (`none`) -/
+def storeQueryGuarded (guard : Text → Bool) (st : NodeSt) (texts : List Text) : NodeSt × Option (List Bool) :=
+  if texts.any guard then (st, none)
+  else let r := queryTextsRO st texts; (r.1, some r.2)
+
 inductive Level where
   | none | weak | linearizable | strong
 deriving Repr, DecidableEq
@@ -147,15 +192,20 @@ def storeRequest (level : Level) (db : Db) (texts : List Text) : Out :=
 `reset` → `ok`
 `dbquery|dbrequest|dbexecute <texts>` and `query|request <none|weak|linearizable|strong> <texts>` →
 `<db tokens .-separated|-> <errs 0/1 string|->`; state (the database) persists between ops.
-texts: `|`-separated texts, each a `,`-separated list of `r`, `w<n>`, `t`; `-` = no texts, `e` = empty text. -/
+`gquery <level> <texts>` is the query path behind the pragma guard; a refused request prints `… rejected`.
+texts: `|`-separated texts, each a `,`-separated list of `r`, `w<n>`, `t`, `p` (query_only off), `a<n>`
+(write through an attached alias); `-` = no texts, `e` = empty text. -/
 
 structure DState where
   db : Db := []
+  roQO : Bool := true
 
 def parseStmt (s : String) : Option Stmt :=
   match s.toList with
   | ['r'] => some .r
   | ['t'] => some .t
+  | ['p'] => some .qoff
+  | 'a' :: ds => (String.ofList ds).toNat?.map .wa
   | 'w' :: ds => (String.ofList ds).toNat?.map .w
   | _ => none
 
@@ -179,16 +229,23 @@ def step (d : DState) (line : String) : DState × String :=
   | [op, ts] =>
     match parseTexts ts with
     | some texts =>
-      if op == "dbquery" then let o := dbQuery d.db texts; ({ db := o.db }, outStr o)
-      else if op == "dbrequest" then let o := dbRequest d.db texts; ({ db := o.db }, outStr o)
-      else if op == "dbexecute" then let o := dbExecute d.db texts; ({ db := o.db }, outStr o)
+      if op == "dbquery" then let o := dbQuery d.db texts; ({ d with db := o.db }, outStr o)
+      else if op == "dbrequest" then let o := dbRequest d.db texts; ({ d with db := o.db }, outStr o)
+      else if op == "dbexecute" then let o := dbExecute d.db texts; ({ d with db := o.db }, outStr o)
       else (d, "bad-op")
     | none => (d, "bad-op")
   | [op, lv, ts] =>
     match parseLevel lv, parseTexts ts with
     | some lv, some texts =>
-      if op == "query" then let o := storeQuery lv d.db texts; ({ db := o.db }, outStr o)
-      else if op == "request" then let o := storeRequest lv d.db texts; ({ db := o.db }, outStr o)
+      if op == "query" then let o := storeQuery lv d.db texts; ({ d with db := o.db }, outStr o)
+      else if op == "request" then let o := storeRequest lv d.db texts; ({ d with db := o.db }, outStr o)
+      else if op == "gquery" then
+        -- the guarded query path (the guard of C15: any text holding a query_only switch is refused)
+        let r := storeQueryGuarded (fun t => t.contains .qoff) ⟨d.db, d.roQO⟩ texts
+        ({ db := r.1.db, roQO := r.1.roQO },
+          match r.2 with
+          | none => outStr ⟨r.1.db, []⟩ ++ " rejected"
+          | some errs => outStr ⟨r.1.db, errs⟩)
       else (d, "bad-op")
     | _, _ => (d, "bad-op")
   | _ => (d, "bad-op")
